@@ -1,5 +1,6 @@
 import VrlModel.Lang.Parse
 import VrlModel.Lang.Type
+import VrlModel.Lang.TypeSpec
 import VrlModel.KindWire
 
 /-! `c01.typeinfo` (harness/src/tinfo.rs): the model of the compiler's type inference
@@ -50,6 +51,17 @@ def handle (op : String) (args : List String) : Option String :=
     if fin.2.oom || hasBangQueryFn dump then pure "oom" else
     pure ("\t".intercalate (("roots\t" ++ toString prog.length) :: showRoots prog T0 ++
       [("F\t" ++ showTd fin.1.finish), showState fin.2]))
+  -- analysis aid (not part of any check): which side condition of the soundness theorem, if any, a
+  -- compiled program fails (`safe` = the theorem applies; `safe+nan` = with float arithmetic)
+  | "c01.checks", [_src, tk, mk, "|", dump] => do
+    let prog ← Parse.program dump
+    let target ← KindWire.kindOfString tk
+    let metadata ← KindWire.kindOfString mk
+    let T0 : TState := { target, metadata }
+    let cs := checksSeq prog T0 {}
+    match pickClass cs with
+    | some c => pure c.name
+    | none => pure (if cs.contains .nan then "safe+nan" else "safe")
   | _, _ => none
 
 end Driver.TypeInfo
